@@ -547,6 +547,10 @@ class Collada(object):
 
         for arr, name in libraries:
             node = self.xmlnode.find(self.tag(name))
+            # a document may hold several library elements of one kind; their objects
+            # were all loaded into the same list and are written into the first element
+            for other in self.xmlnode.getroot().findall(self.tag(name))[1:]:
+                self.xmlnode.getroot().remove(other)
             if node is None:
                 if len(arr) == 0:
                     continue
